@@ -9,7 +9,9 @@
 // style, evaluated under 6 binding vectors, directly through
 // stdmath.Compile/Eval and through `{! ...}` templates; every constant
 // replaced by a bound variable and every variable by its value; every token
-// string up to a length for accept/reject.
+// string up to a length for accept/reject; numeric literals at lexical
+// boundaries next to every binary operator (lexical.go); the TEXT a variable
+// is bound to in a `{! ...}` template (bindtext.go).
 package main
 
 import (
@@ -43,6 +45,10 @@ func bindingVector(i int) *env {
 
 const nBindings = 6
 
+// fixedVars are further named variables with one fixed binding each, used by
+// the lexical family: names that are also hex digits / exponent markers.
+var fixedVars = map[string]float64{"e": 7, "E": -4, "b": 13}
+
 // lookup is the reference-side binding (by variable text).
 func (e *env) lookup(text string) (float64, bool) {
 	switch k := varKey(text); k {
@@ -53,7 +59,10 @@ func (e *env) lookup(text string) (float64, bool) {
 	case "0":
 		return e.m0, true
 	default:
-		v, ok := e.extra[k]
+		if v, ok := e.extra[k]; ok {
+			return v, true
+		}
+		v, ok := fixedVars[k]
 		return v, ok
 	}
 }
@@ -82,6 +91,9 @@ func (c *mctx) GetKey(k string) float64 {
 	if v, ok := c.e.extra[k]; ok {
 		return v
 	}
+	if v, ok := fixedVars[k]; ok {
+		return v
+	}
 	c.unknown++
 	return 0
 }
@@ -89,6 +101,9 @@ func (c *mctx) GetKey(k string) float64 {
 func (e *env) templateContext() *expressions.KeyBuilderContextArray {
 	f := func(v float64) string { return strconv.FormatFloat(v, 'g', -1, 64) }
 	keys := map[string]string{"x": f(e.x), "y": f(e.y)}
+	for k, v := range fixedVars {
+		keys[k] = f(v)
+	}
 	for k, v := range e.extra {
 		keys[k] = f(v)
 	}
@@ -223,6 +238,7 @@ type Case struct {
 	Bind     int                `json:"bind"`               // binding vector (-1: all)
 	Optimize bool               `json:"optimize,omitempty"` // template: key builder optimisation
 	Quoted   bool               `json:"quoted,omitempty"`   // template: formula given as one quoted argument
+	Texts    []string           `json:"texts,omitempty"`    // bind: the texts [0] and x are bound to (Formula is a format with %[1]s, %[2]s)
 }
 
 type checker struct {
@@ -292,6 +308,12 @@ func (c *checker) checkFormula(text, decoLabel, root string, bind int) (res form
 			return
 		}
 	case clsWell:
+		if cp.err != nil && hasOptional(toks) {
+			// a literal spelling the statement and docs/usage/math.md do not give
+			// (0X.., .5, 5., 1e3) may be rejected
+			h.Write([]byte("rejected-optional-literal"))
+			return
+		}
 		if cp.err != nil {
 			// S1: a well-formed formula "evaluates, for all variable bindings, to the value of its parse"
 			c.violation("C19/reject/well-formed-rejected/"+decoLabel, fmt.Sprintf("stdmath.Compile(%q) = error %v although the formula is well formed", text, cp.err), cs)
@@ -548,7 +570,7 @@ func worker(w *runner.W) {
 
 	// part 1: trees
 	part := w.Param("part", "all")
-	for n := 0; n <= tp.maxOps && part != "tokens"; n++ {
+	for n := 0; n <= tp.maxOps && (part == "all" || part == "trees"); n++ {
 		shapes := buildShapes(n)
 		pool := make([]int, 0, len(leafPool))
 		if n <= tp.fullLeavesUpTo {
@@ -589,11 +611,18 @@ func worker(w *runner.W) {
 	}
 
 	// part 2: token strings
-	if part == "trees" {
-		return
+	if part == "all" || part == "tokens" {
+		c.tokenStrings(&caseNo, tp.tokenAlphabet, 0, tp.tokenLen, tp.tokenTemplate)
+		c.tokenStrings(&caseNo, tp.tokenSmall, tp.tokenLen+1, tp.tokenLenSmall, 0)
 	}
-	c.tokenStrings(&caseNo, tp.tokenAlphabet, 0, tp.tokenLen, tp.tokenTemplate)
-	c.tokenStrings(&caseNo, tp.tokenSmall, tp.tokenLen+1, tp.tokenLenSmall, 0)
+	// part 3: numeric literals at lexical boundaries
+	if part == "all" || part == "lexical" {
+		c.lexical(&caseNo, w.Quick())
+	}
+	// part 4: binding texts
+	if part == "all" || part == "bind" {
+		c.bindFamily(&caseNo, w.Quick())
+	}
 }
 
 func inc(idx []int, base int) bool {
@@ -851,6 +880,8 @@ func replay(w *runner.W, raw json.RawMessage) {
 	case "template":
 		res := c.checkFormula(cs.Formula, "binary-tree", "replay", -1)
 		c.checkTemplate(cs.Formula, &res, cs.Quoted, cs.Optimize)
+	case "bind":
+		c.checkBind(cs.Formula, cs.Bind, cs.Texts)
 	default:
 		panic("unknown case kind " + cs.Kind)
 	}
@@ -863,11 +894,12 @@ func main() {
 		Level:      "exploration",
 		Rule: func(prop, tier string) string {
 			tp := params(tier != "thorough")
-			return fmt.Sprintf("every binary-operator tree (all shapes) with 0..%d operators over the 17 binary operators {%s}; leaves: all assignments over {%s} for trees with <=%d operators, over {%s} for bigger trees; printed with minimal parentheses (shift/bit operators, whose level the statement does not give, always parenthesised against other groups) with single spaces, and without spaces for undecorated trees with <=%d and decorated trees with <=%d operators; at most one decoration (prefix -, prefix !, function in {%s} (bigger trees than %d operators: the first only), redundant parentheses at every node; implied multiplication at every * node) on all trees with <=%d operators, on trees with <=%d operators whose leaves are in {%s} and on trees with <=%d operators whose leaves are in {%s}; each formula compiled by stdmath.Compile and evaluated under 6 binding vectors (x,[0],y rotate through 0,1,-1,2.5,-3,1e18) against the value of an independent parse; undecorated trees with <=%d operators (decorated: one less) also through `{! f}` and `{! \"f\"}` templates with and without key-builder optimisation; substitution on undecorated trees with <=%d operators, on undecorated trees with <=%d operators over {%s} and <=%d operators over {%s}, on decorated trees with <=%d operators: every constant alone and all together replaced by bound variables, every variable alone and all together replaced by its value per binding vector; every token string with 0..%d tokens over {%s} and %d..%d tokens over {%s} joined by spaces for accept/reject (up to %d tokens also through templates). non-trivial = the formula compiled and a value determined by the statement was compared on at least one binding, or (token strings) a malformed string was rejected",
+			return fmt.Sprintf("every binary-operator tree (all shapes) with 0..%d operators over the 17 binary operators {%s}; leaves: all assignments over {%s} for trees with <=%d operators, over {%s} for bigger trees; printed with minimal parentheses (shift/bit operators, whose level the statement does not give, always parenthesised against other groups) with single spaces, and without spaces for undecorated trees with <=%d and decorated trees with <=%d operators; at most one decoration (prefix -, prefix !, function in {%s} (bigger trees than %d operators: the first only), redundant parentheses at every node; implied multiplication at every * node) on all trees with <=%d operators, on trees with <=%d operators whose leaves are in {%s} and on trees with <=%d operators whose leaves are in {%s}; each formula compiled by stdmath.Compile and evaluated under 6 binding vectors (x,[0],y rotate through 0,1,-1,2.5,-3,1e18) against the value of an independent parse; undecorated trees with <=%d operators (decorated: one less) also through `{! f}` and `{! \"f\"}` templates with and without key-builder optimisation; substitution on undecorated trees with <=%d operators, on undecorated trees with <=%d operators over {%s} and <=%d operators over {%s}, on decorated trees with <=%d operators: every constant alone and all together replaced by bound variables, every variable alone and all together replaced by its value per binding vector; every token string with 0..%d tokens over {%s} and %d..%d tokens over {%s} joined by spaces for accept/reject (up to %d tokens also through templates). %s. %s. non-trivial = the formula compiled and a value determined by the statement was compared on at least one binding, or (token strings) a malformed string was rejected, or (binding texts) the template output was compared with the error marker or a value",
 				tp.maxOps, strings.Join(binOps, " "), poolNames([]int{0, 1, 2, 3, 4, 5, 6, 7}), tp.fullLeavesUpTo, poolNames(tp.reducedLeaves), tp.compactUpTo, tp.compactDecoUpTo, strings.Join(tp.funcs, ","), tp.decoSmallUpTo,
 				tp.decoFullUpTo, tp.decoSmallUpTo, poolNames(tp.smallPool), tp.decoTinyUpTo, poolNames(tp.tinyPool), tp.templateUpTo,
 				tp.substFullUpTo, tp.substSmallUpTo, poolNames(tp.smallPool), tp.substTinyUpTo, poolNames(tp.tinyPool), tp.substFullUpTo-1,
-				tp.tokenLen, strings.Join(tp.tokenAlphabet, " "), tp.tokenLen+1, tp.tokenLenSmall, strings.Join(tp.tokenSmall, " "), tp.tokenTemplate)
+				tp.tokenLen, strings.Join(tp.tokenAlphabet, " "), tp.tokenLen+1, tp.tokenLenSmall, strings.Join(tp.tokenSmall, " "), tp.tokenTemplate,
+				lexRule(tier != "thorough"), bindRule(tier != "thorough"))
 		},
 		Assumptions: func(string) []string {
 			return []string{
@@ -877,6 +909,8 @@ func main() {
 				"integer operators on non-integers, values outside int64, a modulus <= 0, a negative dividend, shift counts outside 0..62, overflowing shifts, and NaN as a truth value have no value fixed by the statement: only 'no crash' is demanded there",
 				"stacked prefix operators, unary plus, adjacent operands without operator, a function name without a group are neither demanded to compile nor to be rejected",
 				"numeric comparison is NaN-aware (NaN equals NaN) and treats -0 and 0 as equal",
+				"literal spellings that neither the statement nor docs/usage/math.md give (upper-case 0X/0B prefix, leading or trailing dot, unsigned exponent 1e3) may be rejected; when accepted they must have their usual value. A signed exponent (1e-3) is not a literal: unspecified",
+				"binding texts: a plain decimal text (-?digits[.digits], no redundant leading zero) must be read as the float64 nearest to its decimal value (1 ulp tolerated; reference computed with math/big) and must equal the same text written as a constant; for a leading +, redundant leading zeros, leading/trailing dot, exponent, surrounding blanks, 0x/0b/0o prefix, digit separators, inf/nan and values beyond float64 both the documented error marker <BAD-TYPE> and the natural value are accepted; any other text must give the error marker (anchor: binding 'with error counting'), never a number",
 			}
 		},
 		Worker:         worker,
